@@ -16,9 +16,9 @@
     lenient_shape          same number of names, one column per name, every parsed column as long as the value rows
     lenient_values         every column is `C02.Spec.typeColumn` (cell-wise: own value, or the replacement) of the raw
                            column where cut-off cells are the filler text "NaN"
-    filler_values          what the filler parses to per unit
+    filler_values_partial  what the filler parses to per unit (row-wise short rows; transposed short lines: finding F5)
     names_unique           the repaired names are pairwise different (every header; pigeonhole over the candidates)
-    strict_fails_iff_defect, strict_names_all   strict read = lenient read + "fail iff something was counted";
+    strict_fails_iff_defect, strict_failure_is_report_or_typing, strict_failure_messages   strict read = lenient read + "fail iff something was counted";
                            one message per counted defect, naming it
     isolation              blocks, issues and ending of a stream depend on the fixer's configuration only, not on
                            the counters / messages left by earlier blocks
@@ -466,9 +466,17 @@ theorem takenMsgs_names (seen : List Str) (ns os : List Str) (k i : Nat) (n : St
         have e : k + 1 + i = k + (i + 1) := by omega
         rw [← e]; exact this
 
-/-- **a strict read names every structural defect**: the messages of a layout contain the index of every short
-    row and the name and position of every column name that was already taken -/
-theorem msgs_name_defects (ext : Ext) (L : Layout) :
+/- FULL STATEMENT (property text): "a strict read fails with a message naming every defect", defects including
+   "rows cut short", for ALL well-formed tables — row-wise AND transposed. What is proved below is about the layout's
+   value rows `L.rows0`. For a row-wise table these are the rows of the file, so a short row of the file is a short
+   row here. For a TRANSPOSED table `layout` has already padded every short line with empty cells (`padOrTrim`), so
+   `L.rows0` never holds a short row there and the clauses about short rows say nothing: PARTIAL (row-wise tables,
+   or transposed tables none of whose lines is shorter than the number of value rows). The transposed case is FALSE
+   on the model and on the code (open known finding F5, key `transposed_short_line`): negation witness in section 12. -/
+
+/-- **a strict read names every structural defect** (PARTIAL, see above): the messages of a layout contain the index
+    of every short value row of the layout and the name and position of every column name that was already taken -/
+theorem msgs_name_defects_partial (ext : Ext) (L : Layout) :
     (∀ i r, L.rows0[i]? = some r → r.length < L.names0.length → Msg.missingRow i ∈ Spec.msgsOf ext L) ∧
     (∀ i n, L.names0[i]? = some n → n ∈ (repairedNames L.names0).take i → Msg.dup n i ∈ Spec.msgsOf ext L) := by
   constructor
@@ -482,8 +490,9 @@ theorem msgs_name_defects (ext : Ext) (L : Layout) :
     simp only [Spec.msgsOf, List.mem_append]
     left; left; simpa using this
 
-/-- **at least one fix per short row** -/
-theorem short_rows_counted (ext : Ext) (L : Layout) (f0 : Fixer) (p : Precursor) (f3 : Fixer)
+/-- **at least one fix per short row** (PARTIAL: short value rows of the layout — the rows of a row-wise table; a short
+    line of a transposed table never reaches `L.rows0`, see the full statement above and the witness in section 12) -/
+theorem short_rows_counted_partial (ext : Ext) (L : Layout) (f0 : Fixer) (p : Precursor) (f3 : Fixer)
     (h : finish ext L f0 = .ok (p, f3)) :
     f0.fixes + Spec.shortCount L.rows0 L.names0.length ≤ f3.fixes := by
   have := (counts ext L f0 p f3 h).2.2.2.1
@@ -771,10 +780,11 @@ theorem stock_replacements (u : Str) :
     Spec.replacement FixCfg.lenient u =
       if u = uOnoff then .onoff false else if u = uDatetime then .dt NaT else .num NaN := rfl
 
-/-- **the filler**: a cut-off cell reads as the text "NaN" in a text column, as a missing number in a numeric
+/-- **the filler** (PARTIAL: the cut-off cells of a short ROW; the cut-off cells of a short line of a transposed table
+    are empty cells `.none`, not this filler — text column: the text "None"): a cut-off cell reads as the text "NaN" in a text column, as a missing number in a numeric
     column, as NaT in a datetime column — no defect there — and is an illegal cell (replacement, one warning)
     in an onoff column -/
-theorem filler_values (ext : Ext) (u : Str) :
+theorem filler_values_partial (ext : Ext) (u : Str) :
     Spec.legalValue ext u Spec.filler =
       if u = uText then some (.text "NaN".toList)
       else if u = uOnoff then none
@@ -995,14 +1005,13 @@ theorem strict_fails_iff_defect (ext : Ext) (L : Layout) (f0 : Fixer) (hs : f0.c
     · simp [hz]; omega
     · simp [hz]; omega
 
-/-- **strict names all**: when the strict read fails in `report()` the messages it reports are those of the
-    layout: one per counted defect (`msgs_one_per_fix`), naming every short row and every taken name
-    (`msgs_name_defects`); a failure is either that or a column that cannot be typed at all -/
-theorem strict_names_all (ext : Ext) (L : Layout) (f0 : Fixer) (hs : f0.cfg.stopOnErrors = true)
+/-- a strict failure is either a column that cannot be typed at all, or `report()` raising because something was
+    counted. (This theorem alone does not say WHICH messages the raised text carries — the model's `report()` is a bare
+    `throw .valueError`; `strict_failure_messages` below does.) -/
+theorem strict_failure_is_report_or_typing (ext : Ext) (L : Layout) (f0 : Fixer) (hs : f0.cfg.stopOnErrors = true)
     (h0 : f0.fixes = 0) (e : PyExc) (h : finish ext L f0 = .error e) :
     Spec.tableOf ext f0.cfg L = .error e ∨
-    (e = .valueError ∧ 0 < Spec.errorsOf L + Spec.warningsOf ext L ∧
-      (Spec.msgsOf ext L).length = Spec.errorsOf L + Spec.warningsOf ext L) := by
+    (e = .valueError ∧ 0 < Spec.errorsOf L + Spec.warningsOf ext L) := by
   rw [finish_closed] at h
   cases ht : Spec.tableOf ext f0.cfg L with
   | error e' => rw [ht] at h; simp at h; left; rw [h]
@@ -1012,8 +1021,33 @@ theorem strict_names_all (ext : Ext) (L : Layout) (f0 : Fixer) (hs : f0.cfg.stop
     right
     split at h
     · cases h
-      exact ⟨rfl, by omega, msgs_one_per_fix ext L⟩
+      exact ⟨rfl, by omega⟩
     · cases h
+
+/-- **the messages of a strict failure**: the fixer runs the same code whether or not `stop_on_errors` is set, up to
+    the `if` in `report()`. So when the strict read of a typable layout fails, the message list `report()` joins into
+    its text is the list the lenient twin (same fixer, `stop_on_errors` cleared) is left with: the earlier messages
+    followed by exactly `Spec.msgsOf` — one entry per counted defect (`msgs_one_per_fix`), naming the short rows, the
+    taken names (`msgs_name_defects_partial`) and the illegal cells (`msgs_name_illegal_cells`). The harness compares
+    the text of the real InputError with this list on every strict failure. -/
+theorem strict_failure_messages (ext : Ext) (L : Layout) (f0 : Fixer) (h0 : f0.fixes = 0) (p : Precursor)
+    (ht : Spec.tableOf ext f0.cfg L = .ok p) (hd : 0 < Spec.errorsOf L + Spec.warningsOf ext L) :
+    finish ext L (setStop true f0) = .error .valueError ∧
+    ∃ f3, finish ext L (setStop false f0) = .ok (p, f3) ∧ f3.msgs = f0.msgs ++ Spec.msgsOf ext L ∧
+      (Spec.msgsOf ext L).length = f3.fixes := by
+  have hl := lenient_succeeds ext L (setStop false f0) rfl
+  have ht' : Spec.tableOf ext (setStop false f0).cfg L = .ok p := by
+    simpa [setStop, tableOf_stop_irrelevant] using ht
+  rw [ht'] at hl
+  simp only [Except.map] at hl
+  refine ⟨?_, _, hl, rfl, ?_⟩
+  · rw [strict_eq_lenient ext L f0 h0, hl]
+    simp only [bump_fixes]
+    have : (setStop false f0).fixes = 0 := h0
+    simp [this]; omega
+  · rw [msgs_one_per_fix, bump_fixes]
+    have : (setStop false f0).fixes = 0 := h0
+    omega
 
 /-! ## 10. isolation: the verdict on a block depends on the fixer's configuration only -/
 
@@ -1231,5 +1265,134 @@ example : (finish exampleExt exLayout ⟨FixCfg.strict, 0, 0, []⟩).toOption.is
 example : Spec.errorsOf exLayout = 2 ∧ Spec.warningsOf exampleExt exLayout = 3 := by decide
 
 example : (repairedNames exLayout.names0).Nodup := names_unique _
+
+/-! ## 11b. a lenient read returns a TABLE (not only a precursor) -/
+
+theorem rawColumns_length_eq (rows0 : List Row) (n : Nat) (hne : rows0 ≠ []) : (Spec.rawColumns rows0 n).length = n := by
+  unfold Spec.rawColumns
+  have : rows0.isEmpty = false := by cases rows0 <;> simp_all
+  simp [this]
+
+/-- with one unit per name, every column of the table a layout yields is as long as there are value rows -/
+theorem tableOf_column_lengths (ext : Ext) (cfg : FixCfg) (L : Layout) (p : Precursor)
+    (ht : Spec.tableOf ext cfg L = .ok p) (hu : L.units.length = L.names0.length) :
+    ∀ c ∈ p.columns, c.length = L.rows0.length := by
+  unfold Spec.tableOf at ht
+  cases hp : Spec.typeColumns ext cfg L.units (Spec.rawColumns L.rows0 L.names0.length) with
+  | error e => simp [hp, Except.map] at ht
+  | ok parsed =>
+    simp [hp, Except.map] at ht
+    subst ht
+    have hi := typeColumns_index ext cfg _ _ parsed hp
+    intro c hc
+    simp only [List.mem_append, List.mem_replicate] at hc
+    by_cases hne : L.rows0 = []
+    · have hr : Spec.rawColumns L.rows0 L.names0.length = [] := by simp [Spec.rawColumns, hne]
+      have hl : parsed.length = 0 := by rw [hi.1, hr]; simp
+      have hnil : parsed = [] := List.eq_nil_of_length_eq_zero hl
+      rcases hc with hc | ⟨_, hc⟩
+      · simp [hnil] at hc
+      · subst hc; simp [ColVals.length, hne]
+    · have hl : parsed.length = L.names0.length := by
+        rw [hi.1, rawColumns_length_eq _ _ hne, hu]; simp
+      rcases hc with hc | ⟨h0, _⟩
+      · obtain ⟨j, hj, hjc⟩ := List.getElem_of_mem hc
+        have hju : j < L.units.length := by omega
+        have hjn : j < L.names0.length := by omega
+        obtain ⟨v, hv, htc⟩ := hi.2 j _ _ (by simp [hju] : L.units[j]? = some L.units[j])
+          (rawColumns_get L.rows0 _ j hne hjn)
+        have : v = c := by
+          have : parsed[j]? = some c := by simp [hj, hjc]
+          rw [this] at hv; exact (Option.some.inj hv).symm
+        subst this
+        simpa [Spec.columnCells] using (typeColumn_cellwise ext cfg _ _ v htc).1
+      · omega
+
+/-- **a lenient read returns a table**: `_make_table` = precursor + DataFrame construction. With a lenient fixer the
+    table is delivered — with exactly the values, names and counters of `finish_closed` — provided the header is whole
+    (one unit per name), the columns can be typed at all, and no datetime column mixes UTC offsets. The last
+    hypothesis is about the RESULT: it includes the fixer's replacement. A custom fixer must therefore return a
+    timestamp that fits the column (a tz-naive replacement in a column of `…Z` timestamps makes pandas keep the column
+    as objects, and the table is refused with a located error — `frameCheck`, `.columnUnit`). -/
+theorem lenient_table_succeeds (ext : Ext) (cells : List Row) (f0 : Fixer) (L : Layout) (p : Precursor)
+    (hl : layout cells = .ok L) (hs : f0.cfg.stopOnErrors = false)
+    (ht : Spec.tableOf ext f0.cfg L = .ok p) (hu : L.units.length = L.names0.length)
+    (hh : ∀ c ∈ p.columns, c.dtInhomogeneous = false) :
+    makeTable ext cells f0 =
+      .ok (p, bump f0 (Spec.errorsOf L) (Spec.warningsOf ext L) (Spec.msgsOf ext L)) := by
+  have hlen := tableOf_column_lengths ext f0.cfg L p ht hu
+  have hfc : frameCheck p = .ok () := by
+    unfold frameCheck
+    cases hc : p.columns with
+    | nil => rfl
+    | cons c cs =>
+      simp only []
+      have h1 : cs.all (fun d => decide (d.length = c.length)) = true := by
+        rw [List.all_eq_true]
+        intro d hd
+        have e1 := hlen d (by rw [hc]; exact List.mem_cons_of_mem _ hd)
+        have e2 := hlen c (by rw [hc]; exact List.mem_cons_self)
+        simp [e1, e2]
+      have h2 : (c :: cs).any ColVals.dtInhomogeneous = false := by
+        rw [List.any_eq_false]
+        intro d hd
+        have := hh d (by rw [hc]; exact hd)
+        simp [this]
+      simp [h1, h2]
+  rw [makeTable_eq]
+  simp only [makePrecursor, hl, bind, Except.bind]
+  rw [lenient_succeeds ext L f0 hs, ht]
+  simp [Except.map, Except.bind, hfc]
+
+/-! ## 11c. the notion of "illegal" against the independent typing rules of C02 -/
+
+/-- an onoff cell is illegal exactly when the declarative truth table of C02 gives it no value -/
+theorem illegal_onoff_iff (ext : Ext) (c : Cell) : Spec.illegal ext uOnoff c = true ↔ C02.Spec.onoff c = none := by
+  have h1 : uOnoff ≠ uText := by decide
+  simp [Spec.illegal, h1]
+
+/-- a text cell of a numeric column is illegal exactly when it is no missing-value marker (C02.Spec.IsMarker) and
+    `float()` refuses it -/
+theorem illegal_numeric_text_iff (ext : Ext) (u : Str) (s : Str) (h1 : u ≠ uText) (h2 : u ≠ uOnoff) (h3 : u ≠ uDatetime) :
+    Spec.illegal ext u (.str s) = true ↔ ¬ C02.Spec.IsMarker s ∧ ext.parseFloat s = none := by
+  simp only [Spec.illegal, h1, h2, h3, if_false]
+  by_cases hm : C02.Spec.IsMarker s
+  · have := (C02.type_numeric_missing ext).1 s hm
+    simp [this, hm]
+  · rw [C02.type_numeric_text ext s hm]
+    simp [hm]
+
+/-- nothing is ever illegal in a text column -/
+theorem illegal_text (ext : Ext) (c : Cell) : Spec.illegal ext uText c = false := by
+  simp [Spec.illegal]
+
+/-! ## 12. negation witness: value rows cut short in a TRANSPOSED table (open known finding F5) -/
+
+/-- the statement "a strict read of a table with rows cut short fails, naming them" is FALSE for transposed tables:
+    `**t*` / `all` / `a;-;1;2;3` / `b;text;x` — line `b` lost its last two cells — is read by the strict default
+    reader without any error: nothing is counted, nothing is named, the text column holds "None" where cells are
+    missing. (Replayed on the implementation by the harness every run: `f5_witness`.) -/
+def f5Grid : List Row :=
+  [[.str "**t*".toList], [.str "all".toList],
+   [.str "a".toList, .str "-".toList, .str "1".toList, .str "2".toList, .str "3".toList],
+   [.str "b".toList, .str "text".toList, .str "x".toList]]
+
+def f5Ext : Ext :=
+  ⟨fun s => if s = "1".toList then some "1.0".toList else if s = "2".toList then some "2.0".toList
+            else if s = "3".toList then some "3.0".toList else none,
+   fun _ => .valueError, fun c => '0' ≤ c && c ≤ '9'⟩
+
+example :
+    (makeTable f5Ext f5Grid ⟨FixCfg.strict, 0, 0, []⟩).toOption.map
+      (fun r => (r.1.columns, r.2.errors, r.2.warnings, r.2.msgs)) =
+    some ([.num ["1.0".toList, "2.0".toList, "3.0".toList], .text ["x".toList, "None".toList, "None".toList]],
+          0, 0, []) := by decide
+
+/-- the same table written row-wise, the last two rows cut short, IS refused by the strict reader -/
+example :
+    (makeTable f5Ext
+      [[.str "**t".toList], [.str "all".toList], [.str "a".toList, .str "b".toList],
+       [.str "-".toList, .str "text".toList], [.str "1".toList, .str "x".toList], [.str "2".toList], [.str "3".toList]]
+      ⟨FixCfg.strict, 0, 0, []⟩).toOption.isNone = true := by decide
 
 end Pdt.C13
